@@ -210,6 +210,16 @@ class Family(object):
             ('RP.sample', lambda k: self.RP.sample(rth[k], n_samples=2, seed=s['seed'] + k)),
             ('RP.indiv', lambda k: self.RP.compute_individual_parameters(rth[k], robs[k])),
         ]
+        # composed model of non-centred parts, fluctuations given in the documented flattened form
+        self.CPM = chi.ComposedPopulationModel([chi.GaussianModel(centered=False), chi.LogNormalModel(centered=False)])
+        self.CPM.set_n_ids(3)
+        cth = [self._keep('cth', np.array([1.0 + 0.1 * k, 0.2, 0.5, 0.3])) for k in range(3)]
+        ceta = [self._keep('ceta', np.array([0.3 + k, -0.2, 1.1, 0.4, -0.7, 0.1 * k])) for k in range(3)]
+        calls += [
+            ('CPM.indiv_flat', lambda k: self.CPM.compute_individual_parameters(cth[k], ceta[k])),
+            ('CPM.indiv_eta', lambda k: self.CPM.compute_individual_parameters(cth[k], ceta[k], return_eta=True)),
+            ('CPM.loglik', lambda k: self.CPM.compute_log_likelihood(cth[k], ceta[k].reshape(3, 2))),
+        ]
         # reduced pooled model (the individual values ARE the parameters held in the shared buffer)
         rp2 = chi.ReducedPopulationModel(chi.PooledModel(n_dim=2))
         rp2.fix_parameters({rp2.get_parameter_names()[0]: 7.0})
